@@ -8,3 +8,8 @@ import Proofs.C16
 #print axioms Xsel.C16.json_siblings_never_merged
 #print axioms Xsel.C16.json_texts_are_leaves
 #print axioms Xsel.C16.json_adapter_texts
+#print axioms Xsel.C16.json_text_accepted
+#print axioms Xsel.C16.json_text_refines
+#print axioms Xsel.C16.json_text_refines_ws
+#print axioms Xsel.C16.json_text_refines_fin
+#print axioms Xsel.C16.json_text_refines_stream
